@@ -15,8 +15,8 @@ from vf.common import coverage_from_stats
 PID = "C19"
 
 PROTOCOLS = ["PYRO", "pyro", "PyRo", "PYRONAME", "pyroname", "PYROMETA", "PyroMeta", "PYROX", "PYR", "PYRONAMES"]
-OBJECTS = ["obj", "o@b", "o.b-c_d", "a,b", "b,a,b", " a", "", "\u00e9", "obj#1", "Pyro.NameServer", "x:y", "a,,b", "@", "o@@", "1,@a", "@a,1", "b,@a", "@a", "a, b ,a"]
-LOCATIONS = [None, "h:1", "HOST:1", "Host.Example.com:80", "h", "h:", ":1", ":", "1.2.3.4:5", "[::1]:5", "[::1]", "[[::1]]:5", "[abc]:5", "[ABC::1]:5",
+OBJECTS = ["obj", "o@b", "o.b-c_d", "a,b", "b,a,b", " a", "", "\u00e9", "obj#1", "Pyro.NameServer", "x:y", "a,,b", "@", "o@@", "1,@a", "@a,1", "b,@a", "@a", "a, b ,a", "a@", "b,a@", "z,a@,b", "b,a@x"]
+LOCATIONS = [None, "", "h:1", "HOST:1", "Host.Example.com:80", "h", "h:", ":1", ":", "1.2.3.4:5", "[::1]:5", "[::1]", "[[::1]]:5", "[abc]:5", "[ABC::1]:5",
              "[fe80::1%eth0]:5", "[fe80::1%1]:5", "[::1]x:5", "[::1]:5x", "[1:2]:7", "[::1]:", "./u:s", "./u:", "./u:a:b", "./u:/tmp/a b", "./u:/tmp/s ", "./U:s",
              "h:+7", "h: 7", "h:7 ", "h:7_0", "h:\u0667", "h:-1", "h:0x7", "h:65536", "h:1:2", "h:99999999999999999999", "h :1", " h:1", "h:1 ", "h@i:1",
              "::1:5", "h:007", "h:0", "./u", ".:1", "[]:5", "[:]:5", "[::1]:+5"]
@@ -64,7 +64,12 @@ def check_string(s, core, errors, V, st, sers, nss, client):
         return None
     kind = u.protocol + ("|sock" if u.sockname else ("|noloc" if u.host is None else ("|ipv6" if ":" in u.host else ("|emptyhost" if u.host == "" else "|host"))))
     st.outcomes["accepted:" + kind] = st.outcomes.get("accepted:" + kind, 0) + 1
-    t = str(u)
+    try:
+        t = str(u)
+        repr(u)
+    except Exception as x:
+        V("text-form-raises|%s|%s" % (kind, type(x).__name__), "URI(%r) is accepted but has no text form: %r" % (s, x), s)
+        return None
     try:
         u2 = core.URI(t)
     except Exception as x:
